@@ -71,6 +71,22 @@ CHECKS = {
         "Input streams individually ordered and gap-free; no receiver overflow (interpreter skips such sends).",
         "DESIGN.md section 3 C06",
     ),
+    "C07": (
+        "Hypothesis PBT over clock/lateness scripts on a harness-owned virtual clock: arithmetic-progression and alignment predicates on the timestamps handed to every sink",
+        "Period, align_to, creation phase relative to the grid, sink latencies of several periods, a late first call and series "
+        "added while running are generated values; the wall clock is slaved to the virtual loop so timer lateness is exact and "
+        "reproducible. Exploration level.",
+        "frequenz-channels Timer taken as given; the driver restarts resample() on exceptions like the resampling actor.",
+        "DESIGN.md section 3 C07",
+    ),
+    "C08": (
+        "Hypothesis PBT over time-ordered arrival scripts hitting both window edges, with a recording resampling function as the observation point and a recomputed relevance window as oracle",
+        "Arrival scripts on a quarter-period grid (bursts, silences, future-stamped samples, stamps exactly on T and on "
+        "T - age*period, None/NaN) are fed on the virtual clock; what the resampler hands to the (public) resampling function is "
+        "compared with the window recomputed from the script. Exploration level.",
+        "Input timestamps non-decreasing; buffer capacity existentially quantified once the resampler has estimated the input period.",
+        "DESIGN.md section 3 C08",
+    ),
     "C09": (
         "Hypothesis model-based testing: update/query histories against a sliding dict model, invariant after every step (list, numpy and MovingWindow containers)",
         "Operation histories (in/out of order, off-grid timestamps, gaps, jumps beyond capacity, None/NaN, index and unaligned "
